@@ -397,6 +397,74 @@ async fn lx_part(rep: &mut Report, thorough: bool) -> Result<(), String> {
     Ok(())
 }
 
+/// Requests that arrive in two pieces with a long silence between them (current-thread runtime, clock jumped).
+async fn lx_gaps(rep: &mut Report, thorough: bool) -> Result<(), String> {
+    let lx = start_lx("pw", "pw", pool_cfg(3600, 3600, 1), false, true).await?;
+    let proxy = lx.http.unwrap();
+    let echo = start_target("127.0.0.1", TargetMode::Echo, vec![]).await;
+    for gap in if thorough { vec![31u64, 61, 301] } else { vec![31u64, 301] } {
+        // ---- a POST with a body: cuts inside the request line, inside the terminator, between header and body, inside the body
+        let origin = start_target("127.0.0.1", TargetMode::Sink, vec![]).await;
+        let head = format!("POST http://{}/g HTTP/1.1\r\nHost: {}\r\nContent-Length: 9\r\n\r\n", origin.addr, origin.addr);
+        let hlen = head.len();
+        let body = b"123456789";
+        let mut req = head.into_bytes();
+        req.extend_from_slice(body);
+        for (ci, cut) in [1usize, 5, 30, hlen - 3, hlen - 1, hlen, hlen + 4].into_iter().enumerate() {
+            let name = format!("POST ({hlen}-byte header + 9 body bytes) cut at {cut} with {gap} s of silence");
+            rep.case(Some(&name));
+            let before = origin.accepted();
+            let Ok(mut s) = tokio::net::TcpStream::connect(proxy).await else { continue };
+            let _ = s.set_nodelay(true);
+            let _ = send_fragmented_gap(&mut s, &req, &[cut], gap).await;
+            let idx = before;
+            let got = origin.wait(idx, 1500, |t| t.received.ends_with(body)).await;
+            let _ = ci;
+            match got {
+                None => rep.violation("C17:request-broken-by-pause-between-fragments", &format!("{name}: the origin was never contacted"), json!({"engine": "LX", "case": name})),
+                Some(t) => {
+                    let text = String::from_utf8_lossy(&t.received).to_string();
+                    let ok_head = text.starts_with("POST /g HTTP/1.1\r\n") && text.contains("Content-Length: 9\r\n");
+                    let b = t.received.windows(4).position(|w| w == b"\r\n\r\n").map(|p| t.received[p + 4..].to_vec());
+                    if !ok_head || b.as_deref() != Some(&body[..]) {
+                        rep.violation("C17:request-broken-by-pause-between-fragments", &format!("{name}: origin received {:?}", &text[..text.len().min(120)]), json!({"engine": "LX", "case": name}));
+                    }
+                }
+            }
+        }
+        // ---- CONNECT: cut inside the header, then the tunnel must work
+        let creq = format!("CONNECT {} HTTP/1.1\r\nHost: {}\r\n\r\n", echo.addr, echo.addr).into_bytes();
+        for cut in [3usize, creq.len() - 2] {
+            let name = format!("CONNECT cut at {cut} with {gap} s of silence");
+            rep.case(Some(&name));
+            let Ok(mut s) = tokio::net::TcpStream::connect(proxy).await else { continue };
+            let _ = s.set_nodelay(true);
+            let _ = send_fragmented_gap(&mut s, &creq, &[cut], gap).await;
+            let mut resp = vec![];
+            let mut buf = [0u8; 256];
+            while !resp.windows(4).any(|w| w == b"\r\n\r\n") {
+                match tokio::time::timeout(Duration::from_millis(3000), s.read(&mut buf)).await {
+                    Ok(Ok(n)) if n > 0 => resp.extend_from_slice(&buf[..n]),
+                    _ => break,
+                }
+            }
+            let ok200 = resp.starts_with(b"HTTP/1.1 200");
+            let _ = s.write_all(b"ping-after-gap").await;
+            let mut echo_back = vec![];
+            while echo_back.len() < 14 {
+                match tokio::time::timeout(Duration::from_millis(2000), s.read(&mut buf)).await {
+                    Ok(Ok(n)) if n > 0 => echo_back.extend_from_slice(&buf[..n]),
+                    _ => break,
+                }
+            }
+            if !ok200 || echo_back != b"ping-after-gap" {
+                rep.violation("C17:request-broken-by-pause-between-fragments", &format!("{name}: answer {:?}, echo through the tunnel {:?}", String::from_utf8_lossy(&resp[..resp.len().min(40)]), String::from_utf8_lossy(&echo_back)), json!({"engine": "LX", "case": name}));
+            }
+        }
+    }
+    Ok(())
+}
+
 pub fn run(tier: Tier) -> i32 {
     let mut rep = Report::new("C17", tier, "exploration");
     let thorough = tier.is_thorough();
@@ -411,5 +479,8 @@ pub fn run(tier: Tier) -> i32 {
         rep.machinery(format!("LX: {e}"));
     }
     drop(rt);
-    rep.finish("IX on the real parse/rewrite functions vs an independent reference: {GET,POST,PUT,OPTIONS,CONNECT} x target forms {origin, '*', absolute http/https with and without path, authority} x 5 host spellings (names, IPv4, bracketed IPv6) x ports {none,80,443,8080,65535} x Host header {absent, 4 case spellings with/without space, differing from the URI} at every position among 0-2 other headers (duplicates, a name starting with 'host') x versions x body prefixes; LX: header blocks of 65000/65536/65537 bytes with body bytes in the same or a later segment, CONNECT ordering and early bytes, refusing target, origin-form requests per Host spelling; non-trivial = distinct case")
+    if let Err(e) = tokio::runtime::Builder::new_current_thread().enable_all().build().unwrap().block_on(lx_gaps(&mut rep, thorough)) {
+        rep.machinery(format!("LX (gaps): {e}"));
+    }
+    rep.finish("IX on the real parse/rewrite functions vs an independent reference: {GET,POST,PUT,OPTIONS,CONNECT} x target forms {origin, '*', absolute http/https with and without path, authority} x 5 host spellings (names, IPv4, bracketed IPv6) x ports {none,80,443,8080,65535} x Host header {absent, 4 case spellings with/without space, differing from the URI} at every position among 0-2 other headers (duplicates, a name starting with 'host') x versions x body prefixes; LX: header blocks of 65000/65536/65537 bytes with body bytes in the same or a later segment, CONNECT ordering and early bytes, refusing target, origin-form requests per Host spelling, requests arriving in two pieces with 31 / 301 s of silence between them; non-trivial = distinct case")
 }
